@@ -8,10 +8,13 @@ From Twig Require Import Base.Bytes Model.Sched.
    global lock is serialisable: a render may load a, another call re-register a with a different text, and the
    first render include a again. *)
 Definition sc_world_ok (w : sc_world) : Prop :=
-  forall n s, In (n, s) (w_reg w) -> sc_src_of w n = Some s /\ sc_parse s <> None.
+  (forall n s, In (n, s) (w_reg w) -> sc_src_of w n = Some s /\ sc_parse s <> None /\ assoc_bytes (w_regt w) n = None) /\
+  (forall n s, In (n, s) (w_regt w) -> sc_src_of w n = Some s /\ sc_parse s <> None).
 
+(* a RegisterString during the workload registers the source the name already has, and not under a name that
+   holds a template registered without a name (its Template.name would change from empty to the name) *)
 Definition sc_call_consistent (w : sc_world) (c : sc_call) : Prop :=
-  match c with ScCRegister n s => sc_src_of w n = Some s | _ => True end.
+  match c with ScCRegister n s => sc_src_of w n = Some s /\ assoc_bytes (w_regt w) n = None | _ => True end.
 
 Definition sc_consistent_sources (w : sc_world) (threads : list (list sc_call)) : Prop :=
   sc_world_ok w /\ Forall (Forall (sc_call_consistent w)) threads.
